@@ -168,11 +168,36 @@ def write_dataset(root, world, storage):
 
     # ---- instances and annotations -----------------------------------------------------------------
     inst_rows, ann_rows = [], []
+    dim2 = world.get("dim") == 2
+    obj_ann_rows = []
+    sd_of = {}
+    for sn, sen in enumerate(sensors):
+        for i in range(len(samples)):
+            sd_of[(sen["channel"], i)] = "sd%03d_%05d" % (sn, i)
     for ai, a in enumerate(actors):
         present = [i for i, st in enumerate(a["states"]) if st is not None]
         if not present:
             continue
         itok = token_map.get(a["token"], a["token"])
+        if dim2:
+            # camera world: the annotations are image boxes [x1, y1, x2, y2] attached to the camera's sample_data
+            inst_rows.append({"token": itok, "category_token": cat_token[a["category"]], "instance_name": "", "nbr_annotations": 0,
+                              "first_annotation_token": "", "last_annotation_token": ""})
+            for i in present:
+                st = a["states"][i]
+                x, y, w, h = st["roi"]
+                obj_ann_rows.append(
+                    {
+                        "token": "oan%03d_%05d" % (ai, i),
+                        "sample_data_token": sd_of[(st["cam"], i)],
+                        "instance_token": itok,
+                        "category_token": cat_token[a["category"]],
+                        "attribute_tokens": [attr_token[n] for n in a.get("attrs", [])],
+                        "bbox": [int(x), int(y), int(x + w), int(y + h)],
+                        "mask": None,
+                    }
+                )
+            continue
         inst_rows.append(
             {
                 "token": itok,
@@ -218,6 +243,9 @@ def write_dataset(root, world, storage):
         "instance": _reorder(inst_rows, order.get("instance")),
         "sample_annotation": _reorder(ann_rows, order.get("sample_annotation")),
     }
+    if dim2:
+        tables["object_ann"] = _reorder(obj_ann_rows, order.get("object_ann"))
+        tables["surface_ann"] = []
     for name, rows in tables.items():
         with open(os.path.join(ann_dir, name + ".json"), "w") as f:
             json.dump(rows, f)
